@@ -163,6 +163,8 @@ def mutations(kind, kw):
         if isinstance(v, dict) and p != "limits":
             out += ["t_missing_key", "t_io_not_increasing", "t_rows_mismatch",
                     "t_cols_mismatch", "t_flat"]
+            if len(v["vi"]) != len(v["io"]):
+                out += ["t_transposed"]
             if len(v["vi"]) > 1:
                 out += ["t_ragged"]
             if p == "ig":
@@ -225,6 +227,9 @@ def mutate(kind, kw, name, r):
             t[zk] = [row + [row[-1]] for row in t[zk]]
     elif name == "t_ragged":
         t[zk][i0 % len(t[zk])] = t[zk][i0 % len(t[zk])] + [0.5]
+    elif name == "t_transposed":
+        # same number of entries, rows and columns exchanged
+        t[zk] = [list(col) for col in zip(*t[zk])]
     elif name == "t_flat":
         t[zk] = [v for row in t[zk] for v in row]
     elif name == "t_neg_ig":
@@ -459,7 +464,9 @@ def _table_faults():
             kw[par] = tab
             out.append({"kind": kind, "kw": copy.deepcopy(kw), "mutation": None})
             names = ["t_missing_key", "t_io_not_increasing", "t_rows_mismatch",
-                     "t_cols_mismatch", "t_flat"] + (["t_ragged"] if nv > 1 else [])
+                     "t_cols_mismatch", "t_flat"] + (
+                         ["t_ragged"] if nv > 1 else []) + (
+                         ["t_transposed"] if nv != 3 else [])
             for nme in names:
                 for i0 in range(3):
                     k2, m2 = mutate(kind, kw, nme, {"i0": i0, "i1": 0, "f0": 0.5})
